@@ -59,6 +59,88 @@ class _RepTestCase:
         return len(self._stmts)
 
 
+def _container_laws(ctx, repo) -> None:
+    """TestCase interpreted from source over representative statements: after every container operation the type
+    registry lists exactly the bound variables of the statements, a clone shares nothing that an operation changes,
+    chop(p) keeps statements 0..p."""
+    from sa.engine import peval
+
+    mod = repo.module(TC)
+    cres = peval.repo_class_resolver(repo, only={"TestCase", "Statement"})
+    anchor = repo.cls(TC, "TestCase")
+    SPEC = [("var_0", int, ()), ("var_1", str, ()), ("var_2", int, ("var_0",)), (None, None, ("var_1",)), ("var_3", list, ("var_2", "var_1"))]
+
+    def fresh():
+        it = peval.Interp(resolver=peval.repo_resolver(repo), class_resolver=cres, max_steps=400000)
+        t = it.instantiate("TestCase", cres("TestCase", mod), [], {})
+        for v, ty, uses in SPEC:
+            t.methods["add_statement"](stmt(it, v, ty, uses))
+        return it, t
+
+    def stmt(it, var, typ, uses=()):
+        return it.instantiate("Statement", cres("Statement", mod), [], {"node": peval.Term("cst.SimpleStatementLine", [f"{var} = ..."], {}), "bound_variable": var, "bound_type": typ, "assertions": [], "accessible": None, "ml_info": None, "_used_vars": set(uses)}, init=False)
+
+    def registry(t):
+        return {k: list(v) for k, v in t.fields["_type_registry"].items() if v}
+
+    def expected_registry(t):
+        out = {}
+        for s in t.fields["_statements"]:
+            if s.fields["bound_variable"] is not None and s.fields["bound_type"] is not None:
+                out.setdefault(s.fields["bound_type"], []).append(s.fields["bound_variable"])
+        return out
+
+    def names(t):
+        return [s.fields["bound_variable"] for s in t.fields["_statements"]]
+
+    def run(label, body):
+        try:
+            problem = body()
+        except peval.Undecided as exc:
+            ctx.undecide("C15.container", anchor, f"{label}: {exc}")
+            return
+        except peval.Raises as exc:
+            problem = f"raises {exc.name} ({exc.detail[:60]})"
+        ctx.check("C15.container", anchor, problem is None, f"[{label}] {problem}", what=f"[{label}]", stmt=f"[{label}]")
+
+    def clone_then_add(on_clone):
+        def body():
+            it, t = fresh()
+            c = t.methods["clone"]()
+            target, other = (c, t) if on_clone else (t, c)
+            target.methods["add_statement"](stmt(it, "var_9", int))
+            if registry(other) != expected_registry(other) or names(other) != [v for v, _t, _u in SPEC]:
+                return f"add_statement on the {'clone' if on_clone else 'original'} changes the other test case: its registry is {registry(other)}, its statements bind {names(other)} - the registry of a test case that was not touched offers variables it does not define (a later crossover reads an unbound name)"
+            if registry(target) != expected_registry(target):
+                return f"registry {registry(target)} != statements {expected_registry(target)}"
+            return None
+        return body
+
+    run("clone, then add_statement on the clone", clone_then_add(True))
+    run("clone, then add_statement on the original", clone_then_add(False))
+    n = len(SPEC)
+    for p in (-1, 0, 1, n - 1, n + 3):
+        def body(p=p):
+            _it, t = fresh()
+            t.methods["chop"](p)
+            want = [v for v, _t, _u in SPEC][: max(p + 1, 0)]
+            if names(t) != want:
+                return f"chop({p}) keeps the statements binding {names(t)}, expected {want} (statements 0..{p}): " + ("a failing test case that raises in its first statement loses that statement and is dropped as empty" if p == 0 else "statements after the raising one stay / needed ones are lost")
+            if registry(t) != expected_registry(t):
+                return f"after chop({p}) the registry is {registry(t)}, the statements give {expected_registry(t)}"
+            return None
+        run(f"chop({p})", body)
+    for idxs in ({1}, {0, 4}, set()):
+        def body(idxs=idxs):
+            _it, t = fresh()
+            t.methods["remove_statements_batch"](set(idxs))
+            want = [v for i, (v, _t, _u) in enumerate(SPEC) if i not in idxs]
+            if names(t) != want or registry(t) != expected_registry(t):
+                return f"remove_statements_batch({sorted(idxs)}) leaves {names(t)} / registry {registry(t)}, expected {want} / {expected_registry(t)}"
+            return None
+        run(f"remove_statements_batch({sorted(idxs)})", body)
+
+
 def _find_variable_bounded(ctx, repo, fn) -> None:
     """The candidates offered for a statement built at `position` are the matching variables bound
     at an index < position - all of them and nothing else."""
@@ -104,6 +186,8 @@ def check(ctx) -> None:
         for c_ in own_nodes(fn_):
             if isinstance(c_, ast.Call) and isinstance(c_.func, ast.Attribute) and c_.func.attr == "variables_of_type" or (isinstance(c_, ast.Attribute) and c_.attr == "_type_registry"):
                 ctx.fail("C15.bound-before-use", c_, f"{qn_} looks candidates up in the type registry of the whole test case (`{norm(c_)[:60]}`): it also holds variables that are bound after the position the statement is built for, so a statement can read a variable before it is defined", stmt=f"[{qn_}] registry lookup")
+    ctx.rule("C15.container", "ABSINT: TestCase interpreted from source over representative statements - registry == bound variables of the statements after add / chop / remove_statements_batch, clone and original share nothing an operation changes, chop(p) keeps statements 0..p", floor=10)
+    _container_laws(ctx, repo)
     ctx.rule("C15.length", "crossover installs the offspring only under `<finished offspring>.size() < chromosome_length` read after its last change; insertion loops test the size in their loop condition", floor=3)
 
     # ------------------------------------------------------------------ C15.writers
